@@ -889,6 +889,21 @@ class FrameVal:
     def copy(self, deep=True):
         return self.derive()
 
+    def duplicated(self, subset=None, keep="first"):
+        """DataFrame.duplicated(subset, keep): row i is marked iff another selected row (earlier / later / any, by `keep`) agrees with it
+        on every column of `subset` (NaN equal to NaN)."""
+        if subset is None:
+            raise Unsupported("DataFrame.duplicated() over all columns of a frame with unknown columns")
+        cols = [self.col_fn(c) for c in list(subset)]
+
+        def at(i):
+            j = _i("j")
+            rel = {"first": j < i, "last": j > i, False: j != i}[keep]
+            same = [z3.Or(z3.And(c.null(i), c.null(j)), z3.And(z3.Not(c.null(i)), z3.Not(c.null(j)), _zb(py_eq(c.at(i), c.at(j))))) for c in cols]
+            return SBool(z3.Exists([j], z3.And(self.sel(j), rel, *same)))
+
+        return SeriesVal(self.space, at, lambda i: z3.BoolVal(False), self._sel, kind="bool")
+
     def head(self, n=5):
         return self.derive(sel=lambda i: z3.And(self._sel(i), i < _term(n)))
 
